@@ -7,7 +7,7 @@ TAGS = ["td_lane", "ra_lane"]
 def run(tier, seed):
     chk = core.Check("C09", "exploration", tier, seed)
     rng = chk.rng("gen")
-    n = {"quick": 120, "thorough": 1500}[tier]
+    n = {"quick": 160, "thorough": 1500}[tier]
     subj, cases, rejected = lexcheck.make_lex_cases(chk, rng, n, lambda r: lexgen.gen_spec(r, match_p=0.7), tags=TAGS)
     trng = chk.rng("texts")
     ntext = {"quick": 60, "thorough": 200}[tier]
